@@ -193,6 +193,19 @@ impl<T: Bounded> BVH<T> {
 
     /// Divide lista de elementos en dos partes usando el centroide en el eje más largo como plano divisor
     fn partition_elements_by_centroid(elements: Vec<T>) -> (Vec<T>, Vec<T>) {
+        let (mut left, right) = BVH::partition_elements_by_centroid_mean(elements);
+        // Si todos los centroides caen al mismo lado (p.e. centroides coincidentes) la partición
+        // no progresa: repartimos los elementos por la mitad para garantizar la terminación
+        if left.is_empty() || right.is_empty() {
+            left.extend(right);
+            let right = left.split_off(left.len() / 2);
+            return (left, right);
+        }
+        (left, right)
+    }
+
+    /// Divide los elementos en dos grupos, a izquierda y derecha del centroide medio
+    fn partition_elements_by_centroid_mean(elements: Vec<T>) -> (Vec<T>, Vec<T>) {
         let aabb = elements.aabb();
         let dim = aabb.max.coords - aabb.min.coords;
         let len = elements.len() as f32;
